@@ -189,13 +189,20 @@ def judge_lib(r, d):
                 alt = False
                 if r.get("altdec") and cfg in ("plain", "pass"):
                     alt = stream_mismatch(g["obs"], r["altref"] if cfg == "plain" else r["altrefp"], r["altdec"]) is None
-                per_group.append((why, names, g["obs"], miss, alt, cfg))
+                # ... or exactly the other one (after a UTF-16 mark the text's own leading U+FEFF is removed as well)?
+                lost2 = False
+                if r.get("feff") and cfg in ("plain", "pass"):
+                    lost2 = stream_mismatch(g["obs"], r["feffref"] if cfg == "plain" else r["feffrefp"], r["feffdec"]) is None
+                per_group.append((why, names, g["obs"], miss, alt, cfg, lost2))
     # the multi-line groups have no model reference of their own (they are compared with a real run on the transcoding):
     # they count as the known deviation when the line-oriented groups of the same scenario show exactly it
     any_alt = any(x[4] for x in per_group if x[5] != "multi")
     none_other = all(x[4] for x in per_group if x[5] != "multi")
-    per_group = [(w, n, o, m, (a if c != "multi" else (any_alt and none_other))) for (w, n, o, m, a, c) in per_group]
-    for why, names, obs, miss, alt in per_group:
+    any_l2 = any(x[6] for x in per_group if x[5] != "multi")
+    all_l2 = all(x[6] for x in per_group if x[5] != "multi")
+    per_group = [(w, n, o, m, (a if c != "multi" else (any_alt and none_other)), (l2 if c != "multi" else (any_l2 and all_l2)))
+                 for (w, n, o, m, a, c, l2) in per_group]
+    for why, names, obs, miss, alt, lost2 in per_group:
         v = VBYNAME[names[0]]
         if BASELINE in failing:
             clause = clause_of(r)
@@ -206,7 +213,7 @@ def judge_lib(r, d):
             v = next(VBYNAME[n] for n in names if VBYNAME[n]["strat"] != "reader")
         sig = {"clause": clause, "encoding": r["scn"]["label"], "bom": r["scn"]["bom"], "strategy": v["strat"],
                "chunking": v["chunk"], "level": "lib", "effective": r["eff"], "malformed": r["mal"] > 0,
-               "eof_flush": r["flush"], "missing": miss, "decoded_by_label_after_mark": alt,
+               "eof_flush": r["flush"], "missing": miss, "decoded_by_label_after_mark": alt, "second_mark_lost": lost2,
                # a UTF-8 text of odd length read as UTF-16 also ends in half a code unit (the flush finding): two deviations at once
                "rest_odd": r["scn"]["bom"] == "u8" and r["scn"]["label"] in ("utf-16le", "utf-16be") and (len(r["bytes"]) - 3) % 2 == 1}
         bad.append((sig, why, names, obs))
@@ -398,6 +405,10 @@ def rg_level(chk, rep, recs, limit):
                 if r.get("altdec"):
                     altexp = [(e["ln"], e["off"], r["altdec"][e["off"]:e["off"] + e["len"]]) for e in r["altref"] if e["k"] == "match"]
                     sig["decoded_by_label_after_mark"] = got == [(a, o, list(x)) for a, o, x in altexp]
+                sig["second_mark_lost"] = False
+                if r.get("feff"):
+                    fexp = [(e["ln"], e["off"], r["feffdec"][e["off"]:e["off"] + e["len"]]) for e in r["feffref"] if e["k"] == "match"]
+                    sig["second_mark_lost"] = got == [(a, o, list(x)) for a, o, x in fexp]
                 sig["rest_odd"] = r["scn"]["bom"] == "u8" and label in ("utf-16le", "utf-16be") and (len(r["bytes"]) - 3) % 2 == 1
                 rep.report(sig, {"level": "rg", "why": "rg output differs from the search of the UTF-8 transcoding",
                                  "scn": r["scn"], "bytes": r["bytes"], "dec": r["dec"], "label": label, "mmap": mm,
